@@ -1,21 +1,43 @@
 package main
 
 import (
+	"fmt"
+	"reflect"
 	"go/ast"
 	"go/token"
+	"sort"
+	"strconv"
 	"strings"
 )
 
-// Facts for C01 (all read off the current /repo source with go/ast):
-//   - the literal check ids and the "critical" comparisons of passingServices, the shape of its loops
-//   - isServiceCheck and the first test of checksWithTagPrefix
-//   - the pipeline order in ServiceMonitor.Watch (filter → passing → makeConfig → send)
-//   - the join-key construction on both sides (makeConfig, serviceConfig) and the key type
-//   - the shape of main.watchBackend's loop (service text, "\n", manual text; skip when unchanged; continue on a
-//     NewTable error before SetTable; lastTable = nextTable only after SetTable)
+// Facts for C01, read off the current /repo source with go/ast — pinned by MEANING, not spelling:
+//
+//   - every function is summarised as an ordered list of GUARDED ACTIONS `c1 & c2 & … => action`: the conditions
+//     under which an effect (increment, labelled continue, append, send, return, call, store) happens. Conditions are
+//     put in a normal form: parentheses dropped, `!` pushed to the atoms (De Morgan), `a != b` is the negation of
+//     `a == b`, operands of `==` sorted, a disjunction becomes alternatives in else-if order (A ; !A & B), the body of
+//     `if c { …terminates }` contributes `!c` to what follows, an unlabelled `continue` is not an action of its own
+//     (it only guards the rest of the loop body). So nested-if vs guard-clause, if-chain vs switch (the normaliser
+//     turns switches into if-chains), merged vs separate conditions and De Morgan variants give the same list.
+//   - identifiers are canonicalised by ROLE: receiver -> recv, i-th parameter -> p<i>, a local assigned exactly
+//     once from a call -> <callee>#<result index>, other locals -> v<k> in order of declaration, labels -> L<k>,
+//     unexported helper functions of the package that the hooks do not name -> helper<k> in order of appearance
+//     (their own summaries are pinned under that name), the join-key type -> $KEY.
+//   - package constants are inlined and literal concatenations folded (x.UseNormalizedAST).
+//   - makeConfig is followed into unexported helpers (x.WalkInlined), so extracting / inlining a helper keeps
+//     the event list.
+//
+// What is pinned: the literal check ids and the "critical" comparisons, the loops of passingServices, isServiceCheck,
+// hasStatus, checksWithTagPrefix; the data flow of ServiceMonitor.Watch (state -> filter -> passing -> makeConfig ->
+// send); the join key on both sides and the key type; what serviceConfig does on a lookup error and that the monitor
+// keeps no state; the change tests of the two watchers; the statement order of main.watchBackend.
+
+// names the verif hooks reference (a rename breaks the harness build anyway), kept by name
+var c01Hooked = map[string]bool{"passingServices": true, "checksWithTagPrefix": true, "makeConfig": true, "NewServiceMonitor": true}
 
 func init() {
 	register("C01", func(x *X) error {
+		x.UseNormalizedAST()
 		c01Passing(x)
 		c01Service(x)
 		c01Faults(x)
@@ -24,13 +46,576 @@ func init() {
 	})
 }
 
-// stringLits collects the string literals of an expression in source order.
-func (x *X) stringLits(n ast.Node) []string {
-	var out []string
+// ---------------------------------------------------------------------------------------------------------
+// role-based rendering
+// ---------------------------------------------------------------------------------------------------------
+
+type c01fn struct {
+	x       *X
+	dir     string
+	fd      *ast.FuncDecl
+	ren     map[string]string // identifier -> role name
+	helpers []string          // real names of the unexported helpers, in order of appearance
+	labels  map[string]string
+	keyType string // real name of the join-key type ("" = none)
+}
+
+func c01Callee(c *ast.CallExpr) string {
+	switch f := c.Fun.(type) {
+	case *ast.Ident:
+		return f.Name
+	case *ast.SelectorExpr:
+		return f.Sel.Name
+	}
+	return ""
+}
+
+func newC01fn(x *X, dir string, fd *ast.FuncDecl) *c01fn {
+	f := &c01fn{x: x, dir: dir, fd: fd, ren: map[string]string{}, labels: map[string]string{}}
+	recv, params, locals := x.LocalNames(fd)
+	if recv != "" {
+		f.ren[recv] = "recv"
+	}
+	for i, p := range params {
+		f.ren[p] = "p" + strconv.Itoa(i)
+	}
+	if fd.Type.Results != nil {
+		k := 0
+		for _, r := range fd.Type.Results.List {
+			for _, n := range r.Names {
+				f.ren[n.Name] = "r" + strconv.Itoa(k)
+				k++
+			}
+		}
+	}
+	// unexported helpers of the package that no hook names, numbered in source order of their first call
+	isLocal := map[string]bool{}
+	for _, l := range locals {
+		isLocal[l] = true
+	}
+	for _, p := range params {
+		isLocal[p] = true
+	}
+	ast.Inspect(fd.Body, func(n ast.Node) bool {
+		if c, ok := n.(*ast.CallExpr); ok {
+			if id, ok := c.Fun.(*ast.Ident); ok && f.isHelper(id.Name) && !isLocal[id.Name] {
+				f.helperIndex(id.Name)
+			}
+		}
+		return true
+	})
+	roleOfCallee := func(c *ast.CallExpr) string {
+		if id, ok := c.Fun.(*ast.Ident); ok && f.isHelper(id.Name) && !isLocal[id.Name] {
+			return "helper" + strconv.Itoa(f.helperIndex(id.Name))
+		}
+		return c01Callee(c)
+	}
+	// locals defined exactly once, by := from a call, get the role "<callee>#<i>"
+	defs := map[string]int{}
+	from := map[string]string{}
+	ast.Inspect(fd.Body, func(n ast.Node) bool {
+		switch v := n.(type) {
+		case *ast.AssignStmt:
+			for i, l := range v.Lhs {
+				id, ok := l.(*ast.Ident)
+				if !ok || id.Name == "_" {
+					continue
+				}
+				defs[id.Name]++
+				if v.Tok == token.DEFINE && len(v.Rhs) == 1 {
+					if c, ok := v.Rhs[0].(*ast.CallExpr); ok && c01Callee(c) != "" {
+						from[id.Name] = roleOfCallee(c) + "#" + strconv.Itoa(i)
+					}
+				}
+			}
+		case *ast.IncDecStmt:
+			if id, ok := v.X.(*ast.Ident); ok {
+				defs[id.Name]++
+			}
+		case *ast.ValueSpec:
+			for _, id := range v.Names {
+				defs[id.Name]++
+			}
+		case *ast.RangeStmt:
+			for _, e := range []ast.Expr{v.Key, v.Value} {
+				if id, ok := e.(*ast.Ident); ok && id.Name != "_" {
+					defs[id.Name]++
+				}
+			}
+		case *ast.CommClause:
+			if as, ok := v.Comm.(*ast.AssignStmt); ok {
+				for _, l := range as.Lhs {
+					if id, ok := l.(*ast.Ident); ok {
+						defs[id.Name]++
+					}
+				}
+			}
+		}
+		return true
+	})
+	k := 0
+	for _, l := range locals {
+		if _, taken := f.ren[l]; taken {
+			continue
+		}
+		if r, ok := from[l]; ok && defs[l] == 1 {
+			f.ren[l] = r
+			continue
+		}
+		f.ren[l] = "v" + strconv.Itoa(k)
+		k++
+	}
+	return f
+}
+
+func (f *c01fn) isHelper(name string) bool {
+	return !ast.IsExported(name) && !c01Hooked[name] && f.x.anyFuncDecl(f.dir, name) != nil
+}
+
+func (f *c01fn) helperIndex(name string) int {
+	for i, h := range f.helpers {
+		if h == name {
+			return i
+		}
+	}
+	f.helpers = append(f.helpers, name)
+	return len(f.helpers) - 1
+}
+
+// src renders a node with identifiers canonicalised by role (selected field names and struct-literal keys are kept).
+func (f *c01fn) src(n ast.Node) string {
+	type saved struct {
+		id  *ast.Ident
+		old string
+	}
+	var undo []saved
+	skip := map[*ast.Ident]bool{}
 	ast.Inspect(n, func(m ast.Node) bool {
+		switch v := m.(type) {
+		case *ast.SelectorExpr:
+			skip[v.Sel] = true
+		case *ast.KeyValueExpr:
+			if id, ok := v.Key.(*ast.Ident); ok {
+				skip[id] = true
+			}
+		case *ast.FuncLit:
+			return false
+		}
+		return true
+	})
+	ast.Inspect(n, func(m ast.Node) bool {
+		switch v := m.(type) {
+		case *ast.FuncLit:
+			return false
+		case *ast.CallExpr:
+			// unexported helper of the same package, not named by a hook: helper<k>
+			if id, ok := v.Fun.(*ast.Ident); ok && !skip[id] && f.isHelper(id.Name) {
+				if _, isLocal := f.ren[id.Name]; !isLocal {
+					idx := f.helperIndex(id.Name)
+					undo = append(undo, saved{id, id.Name})
+					skip[id] = true
+					id.Name = "helper" + strconv.Itoa(idx)
+				}
+			}
+		case *ast.CompositeLit:
+			if id, ok := v.Type.(*ast.Ident); ok && f.keyType != "" && id.Name == f.keyType {
+				undo = append(undo, saved{id, id.Name})
+				skip[id] = true
+				id.Name = "$KEY"
+			}
+		case *ast.Ident:
+			if skip[v] {
+				return true
+			}
+			if to, ok := f.ren[v.Name]; ok {
+				undo = append(undo, saved{v, v.Name})
+				v.Name = to
+			}
+		}
+		return true
+	})
+	// function literals are opaque
+	s := f.x.src(n)
+	for _, u := range undo {
+		u.id.Name = u.old
+	}
+	if i := strings.Index(s, "func("); i >= 0 {
+		if j := strings.LastIndex(s, "}"); j > i {
+			s = s[:i] + "func" + s[j+1:]
+		}
+	}
+	return s
+}
+
+// ---------------------------------------------------------------------------------------------------------
+// conditions in normal form
+// ---------------------------------------------------------------------------------------------------------
+
+type c01lit struct {
+	atom string
+	pos  bool
+}
+
+func (l c01lit) String() string {
+	if l.pos {
+		return l.atom
+	}
+	if strings.Contains(l.atom, " == ") && !strings.ContainsAny(l.atom, "&|") {
+		return strings.Replace(l.atom, " == ", " != ", 1)
+	}
+	if strings.ContainsAny(l.atom, " ") {
+		return "!(" + l.atom + ")"
+	}
+	return "!" + l.atom
+}
+
+// conj joins two conjunctions, dropping duplicates; ok=false if contradictory.
+func c01conj(a, b []c01lit) ([]c01lit, bool) {
+	out := append([]c01lit{}, a...)
+	for _, l := range b {
+		dup := false
+		for _, o := range out {
+			if o.atom == l.atom {
+				if o.pos != l.pos {
+					return nil, false
+				}
+				dup = true
+			}
+		}
+		if !dup {
+			out = append(out, l)
+		}
+	}
+	return out, true
+}
+
+func c01cross(as, bs [][]c01lit) [][]c01lit {
+	var out [][]c01lit
+	for _, a := range as {
+		for _, b := range bs {
+			if c, ok := c01conj(a, b); ok {
+				out = append(out, c)
+			}
+		}
+	}
+	return out
+}
+
+// dnf returns the alternatives (in else-if order) under which e (negated if neg) holds.
+func (f *c01fn) dnf(e ast.Expr, neg bool) [][]c01lit {
+	switch v := e.(type) {
+	case *ast.ParenExpr:
+		return f.dnf(v.X, neg)
+	case *ast.UnaryExpr:
+		if v.Op == token.NOT {
+			return f.dnf(v.X, !neg)
+		}
+	case *ast.BinaryExpr:
+		switch v.Op {
+		case token.LAND:
+			if !neg {
+				return c01cross(f.dnf(v.X, false), f.dnf(v.Y, false))
+			}
+			return append(f.dnf(v.X, true), c01cross(f.dnf(v.X, false), f.dnf(v.Y, true))...)
+		case token.LOR:
+			if !neg {
+				return append(f.dnf(v.X, false), c01cross(f.dnf(v.X, true), f.dnf(v.Y, false))...)
+			}
+			return c01cross(f.dnf(v.X, true), f.dnf(v.Y, true))
+		case token.EQL, token.NEQ:
+			a, b := f.src(v.X), f.src(v.Y)
+			if b < a {
+				a, b = b, a
+			}
+			return [][]c01lit{{{atom: a + " == " + b, pos: (v.Op == token.EQL) != neg}}}
+		case token.LSS:
+			return [][]c01lit{{{atom: f.src(v.X) + " < " + f.src(v.Y), pos: !neg}}}
+		case token.GTR:
+			return [][]c01lit{{{atom: f.src(v.Y) + " < " + f.src(v.X), pos: !neg}}}
+		case token.GEQ:
+			return [][]c01lit{{{atom: f.src(v.X) + " < " + f.src(v.Y), pos: neg}}}
+		case token.LEQ:
+			return [][]c01lit{{{atom: f.src(v.Y) + " < " + f.src(v.X), pos: neg}}}
+		}
+	}
+	return [][]c01lit{{{atom: f.src(e), pos: !neg}}}
+}
+
+// ---------------------------------------------------------------------------------------------------------
+// guarded actions
+// ---------------------------------------------------------------------------------------------------------
+
+type c01walk struct {
+	f     *c01fn
+	out   []string
+	depth int // loop nesting
+}
+
+func (w *c01walk) emit(paths [][]c01lit, act string) {
+	for _, p := range paths {
+		var cs []string
+		for _, l := range p {
+			cs = append(cs, l.String())
+		}
+		pre := strings.Repeat(">", w.depth)
+		if pre != "" {
+			pre += " "
+		}
+		if len(cs) == 0 {
+			w.out = append(w.out, pre+act)
+		} else {
+			w.out = append(w.out, pre+strings.Join(cs, " & ")+" => "+act)
+		}
+	}
+}
+
+func c01IsLog(c *ast.CallExpr) bool {
+	if se, ok := c.Fun.(*ast.SelectorExpr); ok {
+		if id, ok := se.X.(*ast.Ident); ok && id.Name == "log" {
+			return true
+		}
+	}
+	return false
+}
+
+func (w *c01walk) label(name string) string {
+	if l, ok := w.f.labels[name]; ok {
+		return l
+	}
+	l := "L" + strconv.Itoa(len(w.f.labels))
+	w.f.labels[name] = l
+	return l
+}
+
+// stmts walks a statement list under the alternative paths; it returns the paths that fall through its end.
+func (w *c01walk) stmts(list []ast.Stmt, paths [][]c01lit) [][]c01lit {
+	for _, st := range list {
+		if len(paths) == 0 {
+			return nil
+		}
+		paths = w.stmt(st, paths)
+	}
+	return paths
+}
+
+func (w *c01walk) stmt(st ast.Stmt, paths [][]c01lit) [][]c01lit {
+	f := w.f
+	switch v := st.(type) {
+	case *ast.BlockStmt:
+		return w.stmts(v.List, paths)
+	case *ast.LabeledStmt:
+		w.label(v.Label.Name)
+		return w.stmt(v.Stmt, paths)
+	case *ast.IfStmt:
+		if v.Init != nil {
+			paths = w.stmt(v.Init, paths)
+		}
+		thenP := c01cross(paths, f.dnf(v.Cond, false))
+		elseP := c01cross(paths, f.dnf(v.Cond, true))
+		thenAfter := w.stmts(v.Body.List, thenP)
+		elseAfter := elseP
+		if v.Else != nil {
+			elseAfter = w.stmt(v.Else, elseP)
+		}
+		if reflect.DeepEqual(thenAfter, thenP) && reflect.DeepEqual(elseAfter, elseP) {
+			return paths // neither branch ends the path: what follows does not depend on the condition
+		}
+		return append(append([][]c01lit{}, thenAfter...), elseAfter...)
+	case *ast.RangeStmt:
+		w.emit(paths, "range "+f.src(v.X))
+		w.depth++
+		w.stmts(v.Body.List, [][]c01lit{{}})
+		w.depth--
+		return paths
+	case *ast.ForStmt:
+		head := "for"
+		if v.Cond != nil {
+			head += " " + f.src(v.Cond)
+		}
+		w.emit(paths, head)
+		w.depth++
+		w.stmts(v.Body.List, [][]c01lit{{}})
+		w.depth--
+		if v.Cond == nil {
+			return nil // an endless loop: nothing after it is reached by falling through
+		}
+		return paths
+	case *ast.BranchStmt:
+		switch {
+		case v.Tok == token.CONTINUE && v.Label == nil:
+			return nil // guards the rest of the loop body, no action of its own
+		case v.Label != nil:
+			w.emit(paths, v.Tok.String()+" "+w.label(v.Label.Name))
+		default:
+			w.emit(paths, v.Tok.String())
+		}
+		return nil
+	case *ast.ReturnStmt:
+		var rs []string
+		for _, r := range v.Results {
+			if c01IsBoolExpr(r) {
+				var alts []string
+				for _, alt := range f.dnf(r, false) {
+					var cs []string
+					for _, l := range alt {
+						cs = append(cs, l.String())
+					}
+					alts = append(alts, strings.Join(cs, " & "))
+				}
+				rs = append(rs, strings.Join(alts, " | "))
+				continue
+			}
+			rs = append(rs, f.src(r))
+		}
+		w.emit(paths, strings.TrimSpace("return "+strings.Join(rs, ", ")))
+		return nil
+	case *ast.IncDecStmt:
+		w.emit(paths, f.src(v))
+	case *ast.AssignStmt:
+		if v.Tok == token.DEFINE && len(v.Rhs) == 1 && c01PlainValue(v.Rhs[0]) {
+			return paths // a definition from a literal / make / new carries no effect of its own
+		}
+		w.emit(paths, f.src(v))
+	case *ast.SendStmt:
+		w.emit(paths, "send "+f.src(v.Chan)+" <- "+f.src(v.Value))
+	case *ast.ExprStmt:
+		if c, ok := v.X.(*ast.CallExpr); ok && c01IsLog(c) {
+			return paths
+		}
+		w.emit(paths, "call "+f.src(v.X))
+	case *ast.GoStmt:
+		w.emit(paths, "go")
+	case *ast.DeferStmt:
+		w.emit(paths, "defer "+f.src(v.Call))
+	case *ast.SelectStmt:
+		var cs []string
+		bodies := false
+		for _, c := range v.Body.List {
+			if cc, ok := c.(*ast.CommClause); ok {
+				if cc.Comm == nil {
+					cs = append(cs, "default")
+				} else {
+					cs = append(cs, f.src(cc.Comm))
+				}
+				if len(cc.Body) > 0 {
+					bodies = true
+				}
+			}
+		}
+		s := "select " + strings.Join(cs, " | ")
+		if bodies {
+			s += " (with bodies)"
+		}
+		w.emit(paths, s)
+	case *ast.DeclStmt:
+		// declarations carry no effect
+	case *ast.SwitchStmt, *ast.TypeSwitchStmt:
+		w.emit(paths, "switch (not normalised) "+f.src(v))
+	default:
+		w.emit(paths, "stmt "+f.src(st))
+	}
+	return paths
+}
+
+func c01IsBoolExpr(e ast.Expr) bool {
+	switch v := e.(type) {
+	case *ast.ParenExpr:
+		return c01IsBoolExpr(v.X)
+	case *ast.UnaryExpr:
+		return v.Op == token.NOT
+	case *ast.BinaryExpr:
+		switch v.Op {
+		case token.LAND, token.LOR, token.EQL, token.NEQ, token.LSS, token.GTR, token.LEQ, token.GEQ:
+			return true
+		}
+	}
+	return false
+}
+
+func c01PlainValue(e ast.Expr) bool {
+	switch v := e.(type) {
+	case *ast.BasicLit, *ast.CompositeLit:
+		return true
+	case *ast.UnaryExpr:
+		return c01PlainValue(v.X)
+	case *ast.CallExpr:
+		n := c01Callee(v)
+		return n == "make" || n == "new"
+	}
+	return false
+}
+
+func (x *X) c01Guarded(dir string, fd *ast.FuncDecl, keyType string) (*c01fn, []string) {
+	f := newC01fn(x, dir, fd)
+	f.keyType = keyType
+	w := &c01walk{f: f}
+	w.stmts(fd.Body.List, [][]c01lit{{}})
+	return f, w.out
+}
+
+// stringLits collects the string literals of a node, sorted, without duplicates.
+func (x *X) stringLitSet(n ast.Node) []string {
+	seen := map[string]bool{}
+	ast.Inspect(n, func(m ast.Node) bool {
+		if c, ok := m.(*ast.CallExpr); ok && c01IsLog(c) {
+			return false
+		}
 		if b, ok := m.(*ast.BasicLit); ok && b.Kind == token.STRING {
 			if s, ok := x.strLit(b); ok {
-				out = append(out, s)
+				seen[s] = true
+			}
+		}
+		return true
+	})
+	var out []string
+	for s := range seen {
+		out = append(out, s)
+	}
+	sort.Strings(out)
+	return out
+}
+
+// ---------------------------------------------------------------------------------------------------------
+// passing.go
+// ---------------------------------------------------------------------------------------------------------
+
+func c01Passing(x *X) {
+	const dir = "registry/consul"
+	fd := x.funcDecl(dir, "", "passingServices")
+	if fd == nil {
+		return
+	}
+	f, acts := x.c01Guarded(dir, fd, "")
+	x.defStrList("passingServicesActions", acts)
+	x.defSortedStrList("passingServicesLiterals", x.stringLitSet(fd.Body))
+	// the helpers it calls, in order of appearance: helper0 = "is a service check", helper1 = "has an accepted status"
+	for i, h := range f.helpers {
+		hd := x.anyFuncDecl(dir, h)
+		if hd == nil {
+			continue
+		}
+		_, ha := x.c01Guarded(dir, hd, "")
+		x.defStrList(fmt.Sprintf("passingHelper%dActions", i), ha)
+		x.defSortedStrList(fmt.Sprintf("passingHelper%dLiterals", i), x.stringLitSet(hd.Body))
+	}
+	x.defNat("passingHelperCount", uint64(len(f.helpers)))
+}
+
+// ---------------------------------------------------------------------------------------------------------
+// service.go
+// ---------------------------------------------------------------------------------------------------------
+
+// reachable lists fd and the unexported same-package functions it calls (transitively, via WalkInlined).
+func (x *X) c01Reachable(dir string, fd *ast.FuncDecl) []*ast.FuncDecl {
+	out := []*ast.FuncDecl{fd}
+	seen := map[string]bool{fd.Name.Name: true}
+	x.WalkInlined(dir, fd, func(n ast.Node) bool {
+		if c, ok := n.(*ast.CallExpr); ok {
+			if name := c01Callee(c); name != "" && !ast.IsExported(name) && !seen[name] {
+				if callee := x.anyFuncDecl(dir, name); callee != nil {
+					seen[name] = true
+					out = append(out, callee)
+				}
 			}
 		}
 		return true
@@ -38,7 +623,269 @@ func (x *X) stringLits(n ast.Node) []string {
 	return out
 }
 
-func hasContinue(n ast.Node, label string) bool {
+// expandLocal renders e inside fd with a local that is assigned exactly once replaced by its defining expression
+// (one level), the range variable of the loop replaced by X.
+func c01RangeVar(fd *ast.FuncDecl, inside ast.Node) string {
+	name := ""
+	ast.Inspect(fd.Body, func(n ast.Node) bool {
+		if rs, ok := n.(*ast.RangeStmt); ok && rs.Pos() <= inside.Pos() && inside.End() <= rs.End() {
+			if id, ok := rs.Value.(*ast.Ident); ok {
+				name = id.Name // innermost enclosing range wins (Inspect goes outside-in)
+			}
+		}
+		return true
+	})
+	return name
+}
+
+func c01Service(x *X) {
+	const dir = "registry/consul"
+	if fd := x.funcDecl(dir, "", "checksWithTagPrefix"); fd != nil {
+		_, acts := x.c01Guarded(dir, fd, "")
+		x.defStrList("checksWithTagPrefixActions", acts)
+		x.defSortedStrList("checksWithTagPrefixLiterals", x.stringLitSet(fd.Body))
+	}
+	// Watch: the data flow state -> filter -> passing -> makeConfig -> send, by callee name; an argument that is the
+	// result of one of these calls (directly nested or through a single-assignment local) is written <callee>#<i>
+	if fd := x.funcDecl(dir, "ServiceMonitor", "Watch"); fd != nil {
+		f := newC01fn(x, dir, fd)
+		tracked := map[string]bool{"State": true, "checksWithTagPrefix": true, "passingServices": true, "makeConfig": true}
+		render := func(c *ast.CallExpr) string {
+			name := c01Callee(c)
+			if name == "State" {
+				return "State"
+			}
+			var args []string
+			for _, a := range c.Args {
+				if ac, ok := a.(*ast.CallExpr); ok && tracked[c01Callee(ac)] {
+					args = append(args, c01Callee(ac)+"#0")
+				} else {
+					args = append(args, f.src(a))
+				}
+			}
+			return name + "(" + strings.Join(args, ", ") + ")"
+		}
+		var order []string
+		var visit func(n ast.Node)
+		visit = func(n ast.Node) {
+			ast.Inspect(n, func(m ast.Node) bool {
+				switch v := m.(type) {
+				case *ast.CallExpr:
+					if tracked[c01Callee(v)] {
+						for _, a := range v.Args {
+							visit(a) // evaluation order: arguments first
+						}
+						order = append(order, render(v))
+						return false
+					}
+				case *ast.SendStmt:
+					visit(v.Value)
+					val := f.src(v.Value)
+					if c, ok := v.Value.(*ast.CallExpr); ok && tracked[c01Callee(c)] {
+						val = c01Callee(c) + "#0"
+					}
+					order = append(order, "send "+f.src(v.Chan)+" <- "+val)
+					return false
+				}
+				return true
+			})
+		}
+		visit(fd.Body)
+		x.defStrList("watchFlow", order)
+	}
+	// strict mode flag: the `strict` field of the monitor is initialised with <config param>.ChecksRequired == "all"
+	if fd := x.funcDecl(dir, "", "NewServiceMonitor"); fd != nil {
+		f := newC01fn(x, dir, fd)
+		var found []string
+		ast.Inspect(fd.Body, func(n ast.Node) bool {
+			if kv, ok := n.(*ast.KeyValueExpr); ok {
+				if be, ok := kv.Value.(*ast.BinaryExpr); ok && be.Op == token.EQL {
+					found = append(found, f.src(be))
+				}
+			}
+			return true
+		})
+		x.defStrList("strictInit", found)
+	}
+	// the join: makeConfig (followed into helpers) stores `set[name][key] = true` with name and key read from the
+	// range variable; the lookup function (the reachable function that queries Catalog().Service) tests
+	// `set[key]` and skips the entry when it is missing
+	mk := x.funcDecl(dir, "ServiceMonitor", "makeConfig")
+	if mk == nil {
+		return
+	}
+	reach := x.c01Reachable(dir, mk)
+	keyMake, keyName, keyType := "", "", ""
+	for _, fd := range reach {
+		ast.Inspect(fd.Body, func(n ast.Node) bool {
+			as, ok := n.(*ast.AssignStmt)
+			if !ok || len(as.Lhs) != 1 || len(as.Rhs) != 1 || x.src(as.Rhs[0]) != "true" {
+				return true
+			}
+			outer, ok := as.Lhs[0].(*ast.IndexExpr)
+			if !ok {
+				return true
+			}
+			inner, ok := outer.X.(*ast.IndexExpr)
+			if !ok {
+				return true
+			}
+			rv := c01RangeVar(fd, as)
+			// resolve the two index expressions through their single defining assignment
+			resolve := func(e ast.Expr) ast.Expr {
+				id, ok := e.(*ast.Ident)
+				if !ok {
+					return e
+				}
+				var def ast.Expr
+				ast.Inspect(fd.Body, func(m ast.Node) bool {
+					if d, ok := m.(*ast.AssignStmt); ok && def == nil && d.Tok == token.DEFINE && len(d.Lhs) == len(d.Rhs) {
+						for i, l := range d.Lhs {
+							if li, ok := l.(*ast.Ident); ok && li.Name == id.Name {
+								def = d.Rhs[i]
+							}
+						}
+					}
+					return true
+				})
+				if def != nil {
+					return def
+				}
+				return e
+			}
+			ke, ne := resolve(outer.Index), resolve(inner.Index)
+			if cl, ok := ke.(*ast.CompositeLit); ok {
+				if id, ok := cl.Type.(*ast.Ident); ok {
+					keyType = id.Name
+				}
+			}
+			f := newC01fn(x, dir, fd)
+			f.keyType = keyType
+			f.ren = map[string]string{rv: "X"}
+			keyMake, keyName = f.src(ke), f.src(ne)
+			return true
+		})
+	}
+	x.defStr("keyMake", keyMake)
+	x.defStr("keyMakeName", keyName)
+	// the key type: a struct of comparable fields (Go compares struct keys field by field)
+	var fields []string
+	for _, file := range x.files(dir) {
+		for _, d := range file.Decls {
+			gd, ok := d.(*ast.GenDecl)
+			if !ok {
+				continue
+			}
+			for _, s := range gd.Specs {
+				if ts, ok := s.(*ast.TypeSpec); ok && keyType != "" && ts.Name.Name == keyType {
+					if st, ok := ts.Type.(*ast.StructType); ok {
+						for _, fl := range st.Fields.List {
+							for range fl.Names {
+								fields = append(fields, x.src(fl.Type))
+							}
+						}
+					}
+				}
+			}
+		}
+	}
+	x.defStrList("keyTypeFields", fields)
+	// the lookup side
+	var lookupFn *ast.FuncDecl
+	for _, fd := range reach {
+		ast.Inspect(fd.Body, func(n ast.Node) bool {
+			if c, ok := n.(*ast.CallExpr); ok && c01Callee(c) == "Service" && strings.Contains(x.src(c.Fun), "Catalog()") {
+				lookupFn = fd
+			}
+			return true
+		})
+	}
+	if lookupFn == nil {
+		x.fail("makeConfig: no reachable function queries Catalog().Service")
+		return
+	}
+	keyLookup, skips := "", false
+	ast.Inspect(lookupFn.Body, func(n ast.Node) bool {
+		is, ok := n.(*ast.IfStmt)
+		if !ok || is.Init == nil {
+			return true
+		}
+		as, ok := is.Init.(*ast.AssignStmt)
+		if !ok || len(as.Rhs) != 1 || len(as.Lhs) != 2 {
+			return true
+		}
+		ix, ok := as.Rhs[0].(*ast.IndexExpr)
+		if !ok {
+			return true
+		}
+		okVar := x.src(as.Lhs[1])
+		f := newC01fn(x, dir, lookupFn)
+		f.keyType = keyType
+		f.ren = map[string]string{c01RangeVar(lookupFn, is): "X"}
+		keyLookup = f.src(ix.Index)
+		// the set that is indexed must be a parameter of the lookup function
+		_, params, _ := x.LocalNames(lookupFn)
+		isParam := false
+		for _, p := range params {
+			if p == x.src(ix.X) {
+				isParam = true
+			}
+		}
+		skips = isParam && x.src(is.Cond) == "!"+okVar && c01HasContinue(is.Body, "") && is.Else == nil
+		return true
+	})
+	x.defStr("keyLookup", keyLookup)
+	x.defBool("keyLookupSkipsMissing", skips)
+	// the lookup function as guarded actions (what it returns on an error, what it appends)
+	_, la := x.c01Guarded(dir, lookupFn, keyType)
+	var lk []string
+	for _, s := range la {
+		act := s
+		if i := strings.Index(s, " => "); i >= 0 {
+			act = s[i+4:]
+		}
+		act = strings.TrimLeft(act, "> ")
+		if strings.HasPrefix(act, "return") || strings.HasPrefix(act, "range ") || strings.Contains(act, "= append(") ||
+			strings.Contains(act, "Catalog().Service(") {
+			lk = append(lk, s)
+		}
+	}
+	x.defStrList("lookupActions", lk)
+	// makeConfig followed into its helpers: the events that matter, in order
+	var events []string
+	x.WalkInlined(dir, mk, func(n ast.Node) bool {
+		switch v := n.(type) {
+		case *ast.GoStmt:
+			events = append(events, "go")
+		case *ast.CallExpr:
+			switch name := c01Callee(v); {
+			case name == "Service" && strings.Contains(x.src(v.Fun), "Catalog()"):
+				events = append(events, "Catalog.Service")
+			case name == "build":
+				events = append(events, "build")
+				return false // routecmd.build is C14's
+			case name == "Sort" || name == "Reverse" || name == "StringSlice":
+				events = append(events, "sort."+name)
+			case name == "Join":
+				if len(v.Args) == 2 {
+					events = append(events, "strings.Join "+x.src(v.Args[1]))
+				}
+			}
+		case *ast.AssignStmt:
+			if len(v.Lhs) == 1 && len(v.Rhs) == 1 && x.src(v.Rhs[0]) == "true" {
+				if o, ok := v.Lhs[0].(*ast.IndexExpr); ok {
+					if _, ok := o.X.(*ast.IndexExpr); ok {
+						events = append(events, "store set[name][key]")
+					}
+				}
+			}
+		}
+		return true
+	})
+	x.defStrList("makeConfigEvents", events)
+}
+
+func c01HasContinue(n ast.Node, label string) bool {
 	found := false
 	ast.Inspect(n, func(m ast.Node) bool {
 		if b, ok := m.(*ast.BranchStmt); ok && b.Tok == token.CONTINUE {
@@ -51,319 +898,14 @@ func hasContinue(n ast.Node, label string) bool {
 	return found
 }
 
-func c01Passing(x *X) {
-	const dir = "registry/consul"
-	fd := x.funcDecl(dir, "", "passingServices")
-	if fd == nil {
-		return
-	}
-	// outer loop: labelled `for _, svc := range checks`
-	var outer *ast.RangeStmt
-	label := ""
-	for _, st := range fd.Body.List {
-		if ls, ok := st.(*ast.LabeledStmt); ok {
-			if rs, ok := ls.Stmt.(*ast.RangeStmt); ok {
-				outer, label = rs, ls.Label.Name
-			}
-		}
-	}
-	if outer == nil {
-		x.fail("passingServices: labelled outer range loop not found")
-		return
-	}
-	x.defStr("outerRange", x.src(outer.Key)+","+x.src(outer.Value)+" := range "+x.src(outer.X))
-	// statements of the outer body, classified
-	var shape []string
-	var inner *ast.RangeStmt
-	for _, st := range outer.Body.List {
-		switch v := st.(type) {
-		case *ast.IfStmt:
-			tag := "if " + x.src(v.Cond)
-			if hasContinue(v.Body, "") || hasContinue(v.Body, label) {
-				tag += " continue"
-			}
-			shape = append(shape, tag)
-		case *ast.RangeStmt:
-			inner = v
-			shape = append(shape, "range "+x.src(v.X))
-		case *ast.DeclStmt:
-			shape = append(shape, x.src(v))
-		case *ast.AssignStmt:
-			shape = append(shape, x.src(v))
-		default:
-			shape = append(shape, "other")
-		}
-	}
-	x.defStrList("outerShape", shape)
-	if inner == nil {
-		x.fail("passingServices: inner range loop not found")
-		return
-	}
-	// inner body must be a single `if svc.Node == c.Node { … }`
-	if len(inner.Body.List) != 1 {
-		x.fail("passingServices: inner loop body is not a single if")
-		return
-	}
-	nodeIf, ok := inner.Body.List[0].(*ast.IfStmt)
-	if !ok {
-		x.fail("passingServices: inner loop body is not an if")
-		return
-	}
-	x.defStr("innerGuard", x.src(nodeIf.Cond))
-	var conds, lits []string
-	var conts []string
-	for _, st := range nodeIf.Body.List {
-		is, ok := st.(*ast.IfStmt)
-		if !ok {
-			conds = append(conds, "other")
-			continue
-		}
-		conds = append(conds, x.src(is.Cond))
-		if hasContinue(is.Body, label) {
-			conts = append(conts, "continue-outer")
-		} else {
-			conts = append(conts, "count")
-		}
-		lits = append(lits, x.stringLits(is.Cond)...)
-	}
-	x.defStrList("innerConds", conds)
-	x.defStrList("innerActions", conts)
-	x.defStrList("innerLiterals", lits)
-	// the counting branch: `total++` and `if hasStatus(c, status) { passing++ }`
-	if len(nodeIf.Body.List) > 0 {
-		if is, ok := nodeIf.Body.List[0].(*ast.IfStmt); ok {
-			var cs []string
-			for _, st := range is.Body.List {
-				cs = append(cs, x.src(st))
-			}
-			x.defStrList("countBranch", cs)
-		}
-	}
-	if is := x.funcDecl(dir, "", "isServiceCheck"); is != nil && len(is.Body.List) == 1 {
-		if r, ok := is.Body.List[0].(*ast.ReturnStmt); ok && len(r.Results) == 1 {
-			x.defStr("isServiceCheckExpr", x.src(r.Results[0]))
-			x.defStrList("isServiceCheckLiterals", x.stringLits(r.Results[0]))
-		}
-	} else if is != nil {
-		x.fail("isServiceCheck: body is not a single return")
-	}
-	if hs := x.funcDecl(dir, "", "hasStatus"); hs != nil {
-		var cs []string
-		ast.Inspect(hs.Body, func(n ast.Node) bool {
-			if is, ok := n.(*ast.IfStmt); ok {
-				cs = append(cs, x.src(is.Cond))
-			}
-			return true
-		})
-		x.defStrList("hasStatusConds", cs)
-	}
-}
+// ---------------------------------------------------------------------------------------------------------
+// faults: statelessness, change tests
+// ---------------------------------------------------------------------------------------------------------
 
-func c01Service(x *X) {
-	const dir = "registry/consul"
-	// checksWithTagPrefix: first if of the loop body, tag test
-	if fd := x.funcDecl(dir, "", "checksWithTagPrefix"); fd != nil {
-		var loop *ast.RangeStmt
-		for _, st := range fd.Body.List {
-			if rs, ok := st.(*ast.RangeStmt); ok {
-				loop = rs
-			}
-		}
-		if loop == nil || len(loop.Body.List) != 2 {
-			x.fail("checksWithTagPrefix: loop with two statements not found")
-		} else {
-			if is, ok := loop.Body.List[0].(*ast.IfStmt); ok {
-				x.defStr("filterKeepCond", x.src(is.Cond))
-				x.defStrList("filterKeepLiterals", x.stringLits(is.Cond))
-				x.defBool("filterKeepContinues", hasContinue(is.Body, ""))
-			} else {
-				x.fail("checksWithTagPrefix: first statement is not an if")
-			}
-			if rs, ok := loop.Body.List[1].(*ast.RangeStmt); ok {
-				var cs []string
-				ast.Inspect(rs.Body, func(n ast.Node) bool {
-					if is, ok := n.(*ast.IfStmt); ok {
-						cs = append(cs, x.src(is.Cond))
-					}
-					return true
-				})
-				x.defStr("filterTagRange", x.src(rs.X))
-				x.defStrList("filterTagConds", cs)
-			} else {
-				x.fail("checksWithTagPrefix: second statement is not a range over the tags")
-			}
-		}
-	}
-	// Watch: order of the pipeline calls
-	if fd := x.funcDecl(dir, "ServiceMonitor", "Watch"); fd != nil {
-		var order []string
-		ast.Inspect(fd.Body, func(n ast.Node) bool {
-			switch v := n.(type) {
-			case *ast.CallExpr:
-				f := x.src(v.Fun)
-				if f == "checksWithTagPrefix" || f == "passingServices" || f == "w.makeConfig" || f == "w.client.Health().State" {
-					order = append(order, x.src(v))
-				}
-			case *ast.SendStmt:
-				order = append(order, "send "+x.src(v.Chan)+" <- "+x.src(v.Value))
-				return false
-			case *ast.AssignStmt:
-				if len(v.Lhs) == 1 && len(v.Rhs) == 1 {
-					if c, ok := v.Rhs[0].(*ast.CallExpr); ok {
-						f := x.src(c.Fun)
-						if f == "checksWithTagPrefix" || f == "passingServices" {
-							order = append(order, x.src(v.Lhs[0])+" = "+x.src(c))
-							return false
-						}
-					}
-				}
-			}
-			return true
-		})
-		x.defStrList("watchOrder", order)
-	}
-	// strict mode flag
-	if fd := x.funcDecl(dir, "", "NewServiceMonitor"); fd != nil {
-		found := ""
-		ast.Inspect(fd.Body, func(n ast.Node) bool {
-			if kv, ok := n.(*ast.KeyValueExpr); ok && x.src(kv.Key) == "strict" {
-				found = x.src(kv.Value)
-			}
-			return true
-		})
-		x.defStr("strictExpr", found)
-	}
-	// join key on both sides, with the variable the fields are read from replaced by X
-	norm := func(e ast.Expr, v string) string {
-		return strings.ReplaceAll(x.src(e), v+".", "X.")
-	}
-	if fd := x.funcDecl(dir, "ServiceMonitor", "makeConfig"); fd != nil {
-		key, name, store := "", "", ""
-		ast.Inspect(fd.Body, func(n ast.Node) bool {
-			switch v := n.(type) {
-			case *ast.AssignStmt:
-				if len(v.Lhs) == 2 && len(v.Rhs) == 2 && x.src(v.Lhs[0]) == "name" && x.src(v.Lhs[1]) == "id" {
-					name, key = norm(v.Rhs[0], "check"), norm(v.Rhs[1], "check")
-				}
-				if len(v.Lhs) == 1 && x.src(v.Lhs[0]) == "m[name][id]" {
-					store = x.src(v)
-				}
-			}
-			return true
-		})
-		x.defStr("keyMake", key)
-		x.defStr("keyMakeName", name)
-		x.defStr("keyStore", store)
-		var calls []string
-		for _, c := range x.calls(fd.Body, "w.serviceConfig") {
-			calls = append(calls, x.src(c))
-		}
-		x.defStrList("serviceConfigCalls", calls)
-		var sorts []string
-		for _, c := range x.calls(fd.Body, "sort.Sort") {
-			sorts = append(sorts, x.src(c))
-		}
-		x.defStrList("makeConfigSorts", sorts)
-	}
-	if fd := x.funcDecl(dir, "ServiceMonitor", "serviceConfig"); fd != nil {
-		key, cont := "", false
-		ast.Inspect(fd.Body, func(n ast.Node) bool {
-			if is, ok := n.(*ast.IfStmt); ok && is.Init != nil {
-				if as, ok := is.Init.(*ast.AssignStmt); ok && len(as.Rhs) == 1 {
-					if ix, ok := as.Rhs[0].(*ast.IndexExpr); ok && x.src(ix.X) == "passing" {
-						key = norm(ix.Index, "svc")
-						cont = x.src(is.Cond) == "!ok" && hasContinue(is.Body, "")
-					}
-				}
-			}
-			return true
-		})
-		x.defStr("keyLookup", key)
-		x.defBool("keyLookupSkipsMissing", cont)
-		var cat []string
-		for _, c := range x.calls(fd.Body, "w.client.Catalog().Service") {
-			if len(c.Args) > 0 {
-				cat = append(cat, x.src(c.Args[0]))
-			}
-		}
-		x.defStrList("catalogQueryArg", cat)
-	}
-	// the key type: a struct of comparable fields (Go compares struct keys field by field)
-	var fields []string
-	for _, f := range x.files(dir) {
-		for _, d := range f.Decls {
-			gd, ok := d.(*ast.GenDecl)
-			if !ok {
-				continue
-			}
-			for _, s := range gd.Specs {
-				ts, ok := s.(*ast.TypeSpec)
-				if !ok || ts.Name.Name != "instanceID" {
-					continue
-				}
-				if st, ok := ts.Type.(*ast.StructType); ok {
-					for _, fl := range st.Fields.List {
-						for range fl.Names {
-							fields = append(fields, x.src(fl.Type))
-						}
-					}
-				}
-			}
-		}
-	}
-	x.defStrList("keyTypeFields", fields)
-}
-
-// c01Faults: what the fault/anomaly theorems rely on — serviceConfig gives nothing for a service whose catalog lookup
-// fails, ServiceMonitor (and the package) keep no state between rounds, and the watchers' only tests on the index
-// / value are the ones they have today.
 func c01Faults(x *X) {
 	const dir = "registry/consul"
-	if fd := x.funcDecl(dir, "ServiceMonitor", "serviceConfig"); fd != nil {
-		// the statement after the catalog lookup must be `if err != nil { …; return nil }`
-		var onErr []string
-		found := false
-		for i, st := range fd.Body.List {
-			as, ok := st.(*ast.AssignStmt)
-			if !ok || len(as.Rhs) != 1 || len(x.calls(as.Rhs[0], "w.client.Catalog().Service")) == 0 {
-				continue
-			}
-			if i+1 < len(fd.Body.List) {
-				if is, ok := fd.Body.List[i+1].(*ast.IfStmt); ok && x.src(is.Cond) == "err != nil" && is.Else == nil {
-					found = true
-					for _, b := range is.Body.List {
-						switch v := b.(type) {
-						case *ast.ReturnStmt:
-							onErr = append(onErr, x.src(v))
-						case *ast.ExprStmt:
-							if c, ok := v.X.(*ast.CallExpr); ok && x.src(c.Fun) == "log.Printf" {
-								onErr = append(onErr, "log")
-							} else {
-								onErr = append(onErr, x.src(v))
-							}
-						default:
-							onErr = append(onErr, x.src(b))
-						}
-					}
-				}
-			}
-		}
-		if !found {
-			x.fail("serviceConfig: `if err != nil` after the catalog lookup not found")
-		}
-		x.defStrList("serviceConfigOnLookupError", onErr)
-		// every return of the function
-		var rets []string
-		ast.Inspect(fd.Body, func(n ast.Node) bool {
-			if r, ok := n.(*ast.ReturnStmt); ok {
-				rets = append(rets, x.src(r))
-			}
-			return true
-		})
-		x.defStrList("serviceConfigReturns", rets)
-	}
-	// the fields of ServiceMonitor and the package-level variables of the package
-	var fields, vars []string
+	// the field TYPES of ServiceMonitor (names are free to change) and the package-level variables
+	var types, vars []string
 	for _, f := range x.files(dir) {
 		for _, d := range f.Decls {
 			gd, ok := d.(*ast.GenDecl)
@@ -376,11 +918,12 @@ func c01Faults(x *X) {
 					if v.Name.Name == "ServiceMonitor" {
 						if st, ok := v.Type.(*ast.StructType); ok {
 							for _, fl := range st.Fields.List {
-								if len(fl.Names) == 0 {
-									fields = append(fields, "embedded "+x.src(fl.Type))
+								n := len(fl.Names)
+								if n == 0 {
+									n = 1
 								}
-								for _, n := range fl.Names {
-									fields = append(fields, n.Name)
+								for i := 0; i < n; i++ {
+									types = append(types, x.src(fl.Type))
 								}
 							}
 						}
@@ -395,160 +938,129 @@ func c01Faults(x *X) {
 			}
 		}
 	}
-	x.defStrList("serviceMonitorFields", fields)
-	x.defSortedStrList("consulPackageVars", vars)
-	// assignments to fields of the monitor anywhere in its methods (w.x = …)
-	var fieldWrites []string
+	x.defSortedStrList("serviceMonitorFieldTypes", types)
+	x.defNat("consulPackageVarCount", uint64(len(vars)))
+	// assignments to a field of the receiver in any method of the monitor
+	writes := 0
 	for _, f := range x.files(dir) {
 		for _, d := range f.Decls {
 			fd, ok := d.(*ast.FuncDecl)
 			if !ok || fd.Recv == nil || fd.Body == nil || !strings.Contains(x.src(fd.Recv.List[0].Type), "ServiceMonitor") {
 				continue
 			}
+			recv, _, _ := x.LocalNames(fd)
 			ast.Inspect(fd.Body, func(n ast.Node) bool {
 				if as, ok := n.(*ast.AssignStmt); ok {
 					for _, l := range as.Lhs {
-						if s := x.src(l); strings.HasPrefix(s, "w.") {
-							fieldWrites = append(fieldWrites, fd.Name.Name+": "+x.src(as))
+						if recv != "" && strings.HasPrefix(x.src(l), recv+".") {
+							writes++
 						}
 					}
+				}
+				if inc, ok := n.(*ast.IncDecStmt); ok && recv != "" && strings.HasPrefix(x.src(inc.X), recv+".") {
+					writes++
 				}
 				return true
 			})
 		}
 	}
-	x.defStrList("serviceMonitorFieldWrites", fieldWrites)
-	// the two watch loops: every condition, every write of the remembered index / value, every send
-	loop := func(fd *ast.FuncDecl, remembered ...string) (conds, writes, sends []string) {
+	x.defNat("serviceMonitorFieldWrites", uint64(writes))
+	// the two watch loops as guarded actions
+	if fd := x.funcDecl(dir, "", "watchKV"); fd != nil {
+		_, a := x.c01Guarded(dir, fd, "")
+		x.defStrList("watchKVActions", a)
+	}
+	if fd := x.funcDecl(dir, "ServiceMonitor", "Watch"); fd != nil {
+		// the remembered index (the local assigned from <meta>.LastIndex) is stored, never compared
+		f := newC01fn(x, dir, fd)
+		role, writes := "", []string{}
 		ast.Inspect(fd.Body, func(n ast.Node) bool {
-			switch v := n.(type) {
-			case *ast.IfStmt:
-				conds = append(conds, x.src(v.Cond))
-			case *ast.AssignStmt:
-				for _, l := range v.Lhs {
-					for _, r := range remembered {
-						if x.src(l) == r {
-							writes = append(writes, x.src(v))
-							return true
-						}
-					}
+			if as, ok := n.(*ast.AssignStmt); ok && len(as.Lhs) == 1 && len(as.Rhs) == 1 {
+				if se, ok := as.Rhs[0].(*ast.SelectorExpr); ok && se.Sel.Name == "LastIndex" {
+					role = x.src(as.Lhs[0])
 				}
-			case *ast.SendStmt:
-				sends = append(sends, x.src(v))
 			}
 			return true
 		})
-		return
-	}
-	if fd := x.funcDecl(dir, "", "watchKV"); fd != nil {
-		c, w, s := loop(fd, "lastIndex", "lastValue")
-		x.defStrList("watchKVConds", c)
-		x.defStrList("watchKVWrites", w)
-		x.defStrList("watchKVSends", s)
-	}
-	if fd := x.funcDecl(dir, "ServiceMonitor", "Watch"); fd != nil {
-		c, w, s := loop(fd, "lastIndex")
-		x.defStrList("watchConds", c)
-		x.defStrList("watchWrites", w)
-		x.defStrList("watchSends", s)
+		var compared []string
+		ast.Inspect(fd.Body, func(n ast.Node) bool {
+			switch v := n.(type) {
+			case *ast.AssignStmt:
+				for _, l := range v.Lhs {
+					if role != "" && x.src(l) == role {
+						writes = append(writes, f.src(v))
+					}
+				}
+			case *ast.IfStmt:
+				ast.Inspect(v.Cond, func(m ast.Node) bool {
+					if id, ok := m.(*ast.Ident); ok && role != "" && id.Name == role {
+						compared = append(compared, f.src(v.Cond))
+					}
+					return true
+				})
+			}
+			return true
+		})
+		if role == "" {
+			x.fail("Watch: no local is assigned from .LastIndex")
+		}
+		x.defStrList("watchIndexWrites", writes)
+		x.defStrList("watchIndexConds", compared)
 	}
 }
+
+// ---------------------------------------------------------------------------------------------------------
+// main.watchBackend
+// ---------------------------------------------------------------------------------------------------------
 
 func c01WatchBackend(x *X) {
 	fd := x.funcDecl(".", "", "watchBackend")
 	if fd == nil {
 		return
 	}
-	// the `default:` arm of the backend switch
+	// the loop whose body starts with a select over two channels (the arm of the non-custom backends)
 	var loop *ast.ForStmt
 	ast.Inspect(fd.Body, func(n ast.Node) bool {
-		if cc, ok := n.(*ast.CaseClause); ok && cc.List == nil {
-			for _, st := range cc.Body {
-				if fs, ok := st.(*ast.ForStmt); ok {
-					loop = fs
-				}
+		if fs, ok := n.(*ast.ForStmt); ok && len(fs.Body.List) > 0 {
+			if sel, ok := fs.Body.List[0].(*ast.SelectStmt); ok && len(sel.Body.List) == 2 {
+				loop = fs
 			}
-			return false
 		}
 		return true
 	})
 	if loop == nil {
-		x.fail("watchBackend: loop of the default arm not found")
+		x.fail("watchBackend: loop starting with a two-way select not found")
 		return
 	}
-	var shape []string
-	for _, st := range loop.Body.List {
-		switch v := st.(type) {
-		case *ast.SelectStmt:
-			var cs []string
-			for _, c := range v.Body.List {
-				if cc, ok := c.(*ast.CommClause); ok && cc.Comm != nil {
-					cs = append(cs, x.src(cc.Comm))
-					if len(cc.Body) != 0 {
-						cs = append(cs, "with-body")
-					}
-				}
-			}
-			shape = append(shape, "select "+strings.Join(cs, " | "))
-		case *ast.ExprStmt:
-			c, ok := v.X.(*ast.CallExpr)
-			if !ok {
-				continue
-			}
-			switch x.src(c.Fun) {
-			case "tableBuffer.Reset":
-				shape = append(shape, "reset")
-			case "tableBuffer.WriteString":
-				shape = append(shape, "write "+x.src(c.Args[0]))
-			case "route.SetTable":
-				shape = append(shape, "settable "+x.src(c.Args[0]))
-			}
-		case *ast.IfStmt:
-			cond := x.src(v.Cond)
-			switch {
-			case v.Init != nil && x.src(v.Init) == "nextTable = tableBuffer.String()" && (cond == "nextTable == lastTable") && hasContinue(v.Body, ""):
-				shape = append(shape, "skip-if-unchanged")
-			case cond == "err != nil" && hasContinue(v.Body, ""):
-				shape = append(shape, "on-error-continue")
-			case cond == "err != nil":
-				// logging only
-			default:
-				shape = append(shape, "if "+cond)
-			}
-		case *ast.AssignStmt:
-			s := x.src(v)
-			switch {
-			case s == "lastTable = nextTable":
-				shape = append(shape, "remember")
-			case len(v.Rhs) == 1 && strings.HasPrefix(x.src(v.Rhs[0]), "route.NewTable("):
-				shape = append(shape, "newtable "+s)
-			default:
-				for _, l := range v.Lhs {
-					if n := x.src(l); n == "lastTable" || n == "svccfg" || n == "mancfg" || n == "nextTable" {
-						shape = append(shape, "assign "+s)
-					}
-				}
-			}
+	f := newC01fn(x, ".", fd)
+	w := &c01walk{f: f}
+	w.stmts(loop.Body.List, [][]c01lit{{}})
+	// keep the actions that concern the table text and the table: the select, the buffer, NewTable, SetTable, and
+	// the assignments to plain locals (the remembered text); calls to anything else (aliases, logging of routes,
+	// the once-only signal) are not part of the model
+	var keep []string
+	for _, s := range w.out {
+		act := s
+		if i := strings.Index(s, " => "); i >= 0 {
+			act = s[i+4:]
+		}
+		switch {
+		case strings.HasPrefix(act, "select "),
+			strings.Contains(act, ".Reset()"), strings.Contains(act, ".WriteString("), strings.Contains(act, ".String()"),
+			strings.Contains(act, "NewTable("), strings.Contains(act, "SetTable("):
+			keep = append(keep, s)
+		case strings.HasPrefix(act, "v") && strings.Contains(act, " = ") && !strings.Contains(act, "("):
+			keep = append(keep, s)
 		}
 	}
-	x.defStrList("watchBackendLoop", shape)
-	// nothing else in the function may write the locals or install a table
-	var writes []string
-	ast.Inspect(fd.Body, func(n ast.Node) bool {
-		switch v := n.(type) {
-		case *ast.AssignStmt:
-			for _, l := range v.Lhs {
-				s := x.src(l)
-				if s == "lastTable" || s == "svccfg" || s == "mancfg" || s == "nextTable" {
-					writes = append(writes, x.src(v))
-				}
-			}
-		case *ast.CallExpr:
-			if x.src(v.Fun) == "route.SetTable" {
-				writes = append(writes, x.src(v))
-			}
+	x.defStrList("watchBackendLoop", keep)
+	// nothing else in the function installs a table
+	n := 0
+	ast.Inspect(fd.Body, func(m ast.Node) bool {
+		if c, ok := m.(*ast.CallExpr); ok && c01Callee(c) == "SetTable" {
+			n++
 		}
 		return true
 	})
-	x.defStrList("watchBackendWrites", writes)
+	x.defNat("watchBackendSetTableCalls", uint64(n))
 }
